@@ -15,7 +15,7 @@
 From Coq Require Import List Arith Bool ZArith Reals.
 From mathcomp Require Import all_ssreflect all_algebra.
 From PA Require Import base.Arr base.Px base.MatL model.DistrGeom gen.VmiInv model.DistrFit
-  proofs.VmiInvProofs proofs.DistrGeomProofs proofs.DistrFitProofs proofs.DistrFitMx proofs.C14R.
+  proofs.VmiInvProofs proofs.DistrGeomProofs proofs.DistrFitProofs proofs.DistrFitMx proofs.C14R gen.VmiIndex proofs.VmiIndexProofs.
 Import ListNotations.
 Delimit Scope R_scope with RR.
 Delimit Scope ring_scope with MC.
@@ -43,6 +43,15 @@ Theorem C14_precalc_inside : forall h w o rm order odd g,
     g = quad_geom h w row col rmax (resolve_odd order odd) (nterms order odd).
 Proof. exact precalc_inside. Qed.
 Print Assumptions C14_precalc_inside.
+
+(* Distributions.__init__ as translated from the current source (gen/VmiIndex.v,
+   regenerated on every run): the odd flag and the number of angular terms N are
+   the model's, for every order. *)
+Theorem C14_init_index_translated : forall order odd,
+  gen_init_odd order odd = resolve_odd order odd /\
+  gen_init_N order (gen_init_odd order odd) = nterms order odd.
+Proof. intros; split; [apply init_odd_translated|apply init_N_translated]. Qed.
+Print Assumptions C14_init_index_translated.
 
 (* fold_spec, even orders: for every shape, origin and rmax, all three code
    paths (four regions / image is one quadrant, flipped as needed), quadrant
